@@ -164,16 +164,35 @@ class Vec:
         return "%s%r" % (self._t, self.items)
 
 
+def _invalidate(vec, thr):
+    """std::vector: a modification invalidates the iterators at or after `thr` (0: all of them - insertion may reallocate, and code
+    that relies on it not doing so without a reserve() is wrong for some size)"""
+    if type(vec).__name__ != "Vec":
+        return                # node-based containers keep their iterators
+    vec.__dict__["_gen"] = vec.__dict__.get("_gen", 0) + 1
+    vec.__dict__.setdefault("_events", []).append((vec.__dict__["_gen"], thr))
+    if len(vec.__dict__["_events"]) > 64:
+        del vec.__dict__["_events"][:32]
+
+
 class It:
     """random-access iterator into a Vec"""
-    def __init__(self, vec, pos):
+    def __init__(self, vec, pos, born=None):
         self.vec, self.pos = vec, pos
+        self.born = getattr(vec, "_gen", 0) if born is None else born
+
+    def check_valid(self, what):
+        evs = getattr(self.vec, "_events", None)
+        if evs:
+            for gen, thr in evs:
+                if gen > self.born and self.pos >= thr:
+                    raise OutOfBounds("%s an iterator that an insertion into / erasure from its vector has invalidated (the vector may have moved its elements)" % what)
 
     def copy_value(self):
-        return It(self.vec, self.pos)
+        return It(self.vec, self.pos, self.born)
 
     def assign_from(self, other):
-        self.vec, self.pos = other.vec, other.pos
+        self.vec, self.pos, self.born = other.vec, other.pos, getattr(other, "born", 0)
 
     def arith(self, op, n):
         if isinstance(n, It):
@@ -183,15 +202,18 @@ class It:
         n = int(n)
         if n > (1 << 63):
             n -= 1 << 64
-        return It(self.vec, self.pos + (n if op == "+" else -n))
+        return It(self.vec, self.pos + (n if op == "+" else -n), self.born)
 
     def cmp_with(self, op, other):
         if not isinstance(other, It):
             raise Broken("iterator compared with a non-iterator")
+        self.check_valid("comparison of")
+        other.check_valid("comparison with")
         a, b = self.pos, other.pos
         return {"==": a == b, "!=": a != b, "<": a < b, ">": a > b, "<=": a <= b, ">=": a >= b}[op]
 
     def deref(self):
+        self.check_valid("dereference of")
         if not (0 <= self.pos < len(self.vec.items)):
             raise OutOfBounds("dereference of an iterator at position %d of a vector of %d elements" % (self.pos, len(self.vec.items)))
         return self.vec.items[self.pos]
@@ -203,12 +225,17 @@ class It:
 class RIt(It):
     """reverse iterator: position counted from the back"""
     def copy_value(self):
-        return RIt(self.vec, self.pos)
+        return RIt(self.vec, self.pos, self.born)
+
+    def check_valid(self, what):
+        evs = getattr(self.vec, "_events", None)
+        if evs and any(gen > self.born for gen, thr in evs):
+            raise OutOfBounds("%s a reverse iterator whose vector was modified since it was obtained" % what)
 
     def arith(self, op, n):
         if isinstance(n, It):
             return self.pos - n.pos
-        return RIt(self.vec, self.pos + (int(n) if op == "+" else -int(n)))
+        return RIt(self.vec, self.pos + (int(n) if op == "+" else -int(n)), self.born)
 
     def deref(self):
         i = len(self.vec.items) - 1 - self.pos
@@ -581,23 +608,35 @@ def _cp(x):
 
 
 def _erase(o, a):
+    for it in a[:2]:
+        if isinstance(it, It):
+            it.check_valid("erase through")
     if len(a) == 2:
         if not (0 <= a[0].pos <= a[1].pos <= len(o.items)):
             raise OutOfBounds("erase of [%d, %d) on a vector of %d" % (a[0].pos, a[1].pos, len(o.items)))
-        del o.items[a[0].pos:a[1].pos]
+        if a[0].pos != a[1].pos:
+            del o.items[a[0].pos:a[1].pos]
+            _invalidate(o, a[0].pos)
     else:
         _chk_idx(o, a[0].pos, "erase")
         del o.items[a[0].pos]
+        _invalidate(o, a[0].pos)
     return It(o, a[0].pos)
 
 
 def _insert(o, a):
+    if isinstance(a[0], It):
+        a[0].check_valid("insertion at")
     if not (0 <= a[0].pos <= len(o.items)):
         raise OutOfBounds("insert at %d on a vector of %d" % (a[0].pos, len(o.items)))
     if len(a) == 3 and isinstance(a[1], It) and isinstance(a[2], It):
-        o.items[a[0].pos:a[0].pos] = [_cp(x) for x in _elems(a[1], a[2])]       # insert (pos, first, last)
+        new = [_cp(x) for x in _elems(a[1], a[2])]
+        o.items[a[0].pos:a[0].pos] = new                                         # insert (pos, first, last)
+        if new:
+            _invalidate(o, 0)
         return It(o, a[0].pos)
     o.items.insert(a[0].pos, _cp(a[1]))
+    _invalidate(o, 0)
     return It(o, a[0].pos)
 
 
@@ -800,10 +839,10 @@ def _vector_hooks():
         "method:rend": lambda ev, o, a: RIt(o, len(o.items)),
         "method:crend": lambda ev, o, a: RIt(o, len(o.items)),
         "method:cend": lambda ev, o, a: It(o, len(o.items)),
-        "method:push_back": lambda ev, o, a: o.items.append(_cp(a[0])),
-        "method:emplace_back": lambda ev, o, a: o.items.append(_cp(a[0])) if len(a) == 1 else (_ for _ in ()).throw(Broken("emplace_back with %d arguments" % len(a))),
-        "method:pop_back": lambda ev, o, a: (_chk_idx(o, len(o.items) - 1, "pop_back()"), o.items.pop())[1],
-        "method:clear": lambda ev, o, a: o.items.clear(),
+        "method:push_back": lambda ev, o, a: (o.items.append(_cp(a[0])), _invalidate(o, 0), None)[2],
+        "method:emplace_back": lambda ev, o, a: (o.items.append(_cp(a[0])), _invalidate(o, 0), None)[2] if len(a) == 1 else (_ for _ in ()).throw(Broken("emplace_back with %d arguments" % len(a))),
+        "method:pop_back": lambda ev, o, a: (_chk_idx(o, len(o.items) - 1, "pop_back()"), o.items.pop(), _invalidate(o, len(o.items)))[1],
+        "method:clear": lambda ev, o, a: (o.items.clear(), _invalidate(o, 0), None)[2],
         "method:insert": lambda ev, o, a: (o.insert(a[0]) if isinstance(o, (SetObj, MapObj)) and len(a) == 1 else
                                            ([o.insert(_cp(x)) for x in _elems(a[0], a[1])] and None if isinstance(o, (SetObj, MapObj)) and len(a) == 2 and isinstance(a[0], It) and isinstance(a[1], It)
                                             else _insert(o, a))),
@@ -1621,6 +1660,11 @@ class CxxEvaluator(Evaluator):
         if k == "call" and e.get("f", "").startswith("std::swap<") and len(e.get("a", [])) == 2:
             a = self.eval(e["a"][0], env, this)
             b = self.eval(e["a"][1], env, this)
+            if a is not b and type(a) is type(b) and isinstance(a, (Vec, Obj, Struct, StdStr)):
+                # the two objects exchange their contents where they are: whoever refers to them (a reference variable, the owner
+                # a getter returned them from) sees the exchange
+                a.__dict__, b.__dict__ = b.__dict__, a.__dict__
+                return None
             self.store(e["a"][0], _cp(b), env, this)
             self.store(e["a"][1], _cp(a), env, this)
             return None
